@@ -109,6 +109,32 @@ def mk_dt(fields):
     return ldt(y, mo, d, h, mi, s, us, tzinfo=tz)
 
 
+class RuleTz(pydt.tzinfo):
+    """a zone whose offset depends on the date (daylight-saving style): `dst_us` in the months `months`, `std_us`
+    otherwise.  One object is shared by consecutive calls, like a ZoneInfo instance."""
+
+    def __init__(self, std_us, dst_us, months, names=("STD", "DST")):
+        self.std_us, self.dst_us, self.months, self.names = std_us, dst_us, frozenset(months), names
+
+    def _on(self, dt):
+        return dt is not None and dt.month in self.months
+
+    def utcoffset(self, dt):
+        return pydt.timedelta(microseconds=self.dst_us if self._on(dt) else self.std_us)
+
+    def dst(self, dt):
+        return pydt.timedelta(microseconds=(self.dst_us - self.std_us) if self._on(dt) else 0)
+
+    def tzname(self, dt):
+        return self.names[1] if self._on(dt) else self.names[0]
+
+
+DEFAULT_SPEC = "YYYY-MM-DD HH:mm:ss.SSS Z"
+DEFAULT_PIECES = [("tok", "YYYY"), ("lit", "-"), ("tok", "MM"), ("lit", "-"), ("tok", "DD"), ("lit", " "), ("tok", "HH"),
+                  ("lit", ":"), ("tok", "mm"), ("lit", ":"), ("tok", "ss"), ("lit", "."), ("tok", "SSS"), ("lit", " "),
+                  ("tok", "Z")]
+
+
 def gen_instant(rng):
     mode = rng.below(10)
     if mode == 0:
@@ -320,6 +346,57 @@ def run(ctx):
         lines.append(line_of(spec, fields))
         cases.append((spec, fields, got))
 
+    # ---- stream 1b: date-dependent zones shared by consecutive calls (state must not survive from one call to the
+    # next): the same tzinfo OBJECT, instants on both sides of its switch, the same spec - default format included
+    from loguru._datetime import datetime as ldt
+    nz = ctx.n(150, 4000) * boost
+    for zi in range(nz):
+        rz = rng.fork("zone%d" % zi)
+        std = rz.choice([0, 3600, -18000, 34200, 19800, -12600]) * 10**6
+        delta = rz.choice([3600, 3600, 1800, -3600, 7200]) * 10**6
+        months = rz.choice([(4, 5, 6, 7, 8, 9, 10), (11, 12, 1, 2), (7,), (1, 2, 3, 4, 5, 6)])
+        zone = RuleTz(std, std + delta, months)
+        kind = rz.below(4)
+        if kind == 0:
+            pieces, utc = list(DEFAULT_PIECES), False
+        elif kind == 1:
+            pieces, utc = list(DEFAULT_PIECES), True
+        else:
+            pieces, utc = gen_structured(rz)
+            if not any(t in ("Z", "ZZ", "zz", "x", "X", "HH", "H") for k, t in pieces if k == "tok"):
+                pieces = pieces + [("lit", " "), ("tok", rz.choice(["Z", "ZZ", "zz", "x"]))]
+        spec = "".join(t if k != "esc" else "[" + t + "]" for k, t in pieces) + ("!UTC" if utc else "")
+        if "%" in spec or "SSSSSSS" in spec:
+            continue
+        cut = recut(pieces) if kind >= 2 else pieces
+        history = []
+        for ci in range(rz.range(2, 5)):
+            f = gen_instant(rz)
+            y = min(max(f[0], 2), 9998)
+            mo = rz.choice(sorted(months)) if ci % 2 == 0 else rz.choice([m for m in range(1, 13) if m not in months])
+            d = min(f[2], 28)
+            dt = ldt(y, mo, d, f[3], f[4], f[5], f[6], tzinfo=zone)
+            history.append([y, mo, d, f[3], f[4], f[5], f[6]])
+            got = impl_format(dt, spec)
+            if got[0] == "skip":
+                continue
+            off_us = (dt.utcoffset() // US)
+            fixed = (y, mo, d, f[3], f[4], f[5], f[6], off_us, dt.tzname())
+            ref = mk_dt(fixed)
+            d2 = ref.astimezone(pydt.timezone.utc) if utc else ref
+            exp = "".join(oracle_token(t, d2) if k == "tok" else t for k, t in cut)
+            ctx.case(("zone", spec, fixed, ci), nontrivial=True)
+            ctx.stat("zones:default" if kind < 2 else "zones:structured")
+            if got != ("ok", exp):
+                exp_f1 = "".join(oracle_token(t, d2, f1_tz) if k == "tok" else t for k, t in cut)
+                key = "F1-negative-offset-with-seconds" if got == ("ok", exp_f1) and f1_applies(fixed) and not utc else None
+                ctx.violation("format(%r, %r) with a date-dependent zone (call %d on the same tzinfo object): expected %r, "
+                              "observed %r" % (dt.isoformat(), spec, ci + 1, exp, got[1]),
+                              {"stream": "zones", "case": zi, "spec": spec, "instant": list(fixed), "call": ci,
+                               "zone": [std, std + delta, list(months)], "history": history,
+                               "expected": exp, "observed": got[1]}, key=key)
+                break
+
     # ---- stream 2: adversarial strings, implementation vs model
     n2 = ctx.n(4000, 150000) * boost
     for i in range(n2):
@@ -430,6 +507,18 @@ def run(ctx):
 
 def replay(ctx, rep):
     r = rep["replay"]
+    if r.get("stream") == "zones":
+        from loguru._datetime import datetime as ldt
+        zone = RuleTz(r["zone"][0], r["zone"][1], r["zone"][2])
+        got = None
+        for h in r["history"]:                      # the same tzinfo object, call after call
+            dt = ldt(*h, tzinfo=zone)
+            got = impl_format(dt, r["spec"])
+            print("format(%s, %r) -> %r" % (dt.isoformat(), r["spec"], got))
+        print("expected for the last call:", r["expected"])
+        bad = got != ("ok", r["expected"])
+        print("REPRODUCED" if bad else "not reproduced")
+        return 1 if bad else 0
     fields = tuple(r["instant"])
     dt = mk_dt(fields)
     got = impl_format(dt, r["spec"])
